@@ -95,11 +95,8 @@ Proof.
   rewrite slice_to_o_some by (rewrite Lpe; lia). cbn [bindo]. cbn [path_start set_ser].
   rewrite Lpe.
   destruct (negb (starts_with [47] (nskipn (scheme_end u + 1) (nfirstn (path_end u) (ser u))))).
-  - destruct (match p with
-              | 47 :: r => (truncate (nfirstn (path_end u) (ser u)) (path_start u) ++ [37; 50; 70], r)
-              | _ => (truncate (nfirstn (path_end u) (ser u)) (path_start u), p)
-              end) as [s p'].
-    cbn [bindo]. apply (restore_after_path_total dbg u u _ _ W); reflexivity.
+  - destruct (inp_split_prefix_char 47 (input_new_no_trim p)) as [r|];
+      cbn [bindo]; apply (restore_after_path_total dbg u u _ _ W); reflexivity.
   - destruct (parse_path_start_ctx dbg CSetter (scheme_type_of (nfirstn (scheme_end u) (nfirstn (path_end u) (ser u))))
                 eq_refl true (truncate (nfirstn (path_end u) (ser u)) (path_start u)) p) as (s & hh & rem & E & _).
     rewrite E. cbn [unpres bindo]. apply (restore_after_path_total dbg u u _ _ W); reflexivity.
